@@ -1,9 +1,13 @@
 check("C15", "model_checking",
       "TLC model-checks the diagnostics specification SyltDiag (well-formed index-addressed universe of planted local errors; "
       "text-derived line index agrees with a running newline counter on every prefix of the spec's sample texts), then validates, "
-      "for every applicable case of error kind (18: syntax, unresolved, assignment to constants, operator/argument/annotation "
-      "mismatch, break outside a loop, conflict marker, and duplicate names for every ordered pair of introductions definition / "
-      "`use` / `from .. use`, import/import from two different modules included) x file (main / imported sibling / imported from "
+      "for every applicable case of error kind (31: syntax, unresolved, assignment to constants, operator/argument/annotation "
+      "mismatch, break outside a loop, conflict marker; duplicate names for every ordered pair of introductions definition / "
+      "`use` / `from .. use`, import/import from two different modules included; and 13 multi-line statements whose offending "
+      "ELEMENT stands on a later line than the statement's first line - mismatching argument of a paren / prime / nested call, "
+      "unresolved name as argument / list / tuple / blob-field element, 2nd / 3rd / last name missing from a multi-line "
+      "`from .. use ( .. )` list, operator mismatch inside a multi-line parenthesised expression / condition, assignment to a "
+      "constant inside a block lambda argument) x file (main / imported sibling / imported from "
       "sub-folder) x position (first/middle/last top-level statement, function body, if-branch) x preceding text shape (39: none, "
       "ASCII/non-ASCII comment, non-ASCII string, blank lines, CRLF, tabs, and string literals whose content spans lines in every "
       "way - text on the last line, ending with one or two newlines, beginning with a newline, only newlines, a blank line inside, "
@@ -11,11 +15,14 @@ check("C15", "model_checking",
       "before a trailing comment, with non-ASCII text) x layout of the modules a colliding name is imported from (its own "
       "definition on an earlier / the same / a later line number than the colliding import statement), and for seeded random "
       "stacked variations, that the FIRST error the real compiler returns names the file and the line TLC derives from the "
-      "recorded text and the planted construct's offset. Bounded-exhaustive over the stated universe (11 349 cases), not a proof.",
+      "recorded text and the planted construct's offset. Bounded-exhaustive over the stated universe (18 252 cases), not a proof.",
       "Trusted: TLC, SyltDiag/SyltLex!LineOf as the reading of 'the line where the construct is written' (for duplicate names: the "
       "textually later of the two introductions in the file that holds both - for import/import the second import statement - "
       "wherever the imported names are defined), the recorder c15 (renders cases, records file/line of the first error; TLC "
       "re-checks the case fields, the marker, the preceding shape and the layout of the imported modules against the spec). "
-      "Planted constructs are single-line; non-ASCII characters are shown to TLC as '@'. Columns and message texts are not observed.",
+      "The offending element of every planted form is written on one line (for multi-line statements the element, not the "
+      "statement, is 'the construct'; forms whose offending construct itself spans lines - blob-literal field mismatch, operands "
+      "or annotation and value on different lines - are kept out, see docs/C15.md); non-ASCII characters are shown to TLC as '@'. "
+      "Columns and message texts are not observed.",
       "TLA+ diagnostics spec + TLC trace validation of recorded first-error locations (index-addressed universe)",
       "DESIGN.md 5.1, 8/C15; docs/C15.md")
